@@ -21,6 +21,9 @@ def run(ctx):
                      "incl. successive and concurrent waiters, sleeps past maxWait, Close at any point) run against the real Batch/BatchFunc; each recorded history must be accepted by the LTS model "
                      "(some schedule produces it; every quiescence point is a model state with nothing enabled and no timer running) and satisfy the direct oracle (partition, sizes, error position, "
                      "one-sided maxWait bound on timestamps, Close returns, source closed exactly once, nothing held back at quiescence); distinct = hash of script; non-trivial = >= 1 release and >= 1 Next/Close")
-    vlib.handle_broken_proof(ctx)
+    def deep():
+        # only when an obligation (e.g. the source census) no longer checks: patience mode, bigger storms
+        vlib.patience_part(ctx, BatchSpec(), exe, proofs_ok, tag="batch", ncases=16, ms=6500)
+    vlib.handle_broken_proof(ctx, deep if ctx.tier == "quick" else None)
     ctx.finish(assumptions=["the source's Next returns once the context passed to it is cancelled (the harness source does)",
                             "timer channels follow the pre-Go-1.23 semantics selected by the repository's go.mod (go 1.18)"])
